@@ -634,6 +634,12 @@ def expr_pool(quick):
         ("match-shadow-other-payload", "Int", ("Match", call("Err", V("s")),
                                                [(("Ok", ("Sym", "a")), [("Bin", V("a"), "+", I(1))], True),
                                                 (("Err", ("Sym", "w")), [("Bin", V("a"), "*", I(2))], True)])),
+        # a closure parameter named like the outer `a` shadows it inside the closure only: the outer `a` is used again after the closure,
+        # and before it
+        ("closure-param-shadow-then-use", "Tuple", ("Tuple", [("MethodCall", V("xs"), "map", [("Lambda", [("a", None)], None, [("Bin", V("a"), "*", I(2))])]), V("a")])),
+        ("use-then-closure-param-shadow", "Tuple", ("Tuple", [V("a"), ("MethodCall", V("xs"), "map", [("Lambda", [("a", None)], None, [("Bin", V("a"), "*", I(2))])])])),
+        # a `for`-free equivalent with two closures in a row, the second reusing the parameter name of the first
+        ("two-closures-same-param", "Tuple", ("Tuple", [call("twice", LAM_XA, I(1)), call("twice", ("Lambda", [("x", T_INT)], None, [("Bin", V("x"), "*", V("a"))]), I(2)), V("a")])),
         # the inner closure has the type Fun<(Int), List<Any>> (z is untyped): an unwritable type nested in a writable one
         ("closure-nested-any", "List", ("Call", ("Paren", ("Call", ("Paren", ("Lambda", [("z", None)], None, [
             ("Lambda", [("x", T_INT)], None, [("List", [V("z")])])])), [V("a")])), [I(1)])),
